@@ -60,3 +60,72 @@ Proof.
 Qed.
 
 (* with equal weights the pinned tree's epistemic variance is the repaired one: Lemmas.mn_epi_today_equal_weights *)
+
+(* F80: loc masked, scale not (weights 1/2, 1/4, 1/4; locs -, 3, 4; scales 1, 1/2, 1/2): the pinned tree answers
+   total variance 1/2 but aleatoric 5/8 + epistemic 1/4 = 7/8; with the member masked as a whole: 1/2 = 1/4 + 1/4 *)
+Definition l80 : list (Q * (option Q * option Q)) :=
+  [(1 # 2, (None, Some 1)); (1 # 4, (Some (3 # 1), Some (1 # 2))); (1 # 4, (Some (4 # 1), Some (1 # 2)))].
+
+Lemma partial_mask_refuted :
+  exists l, ~ mn2_total_today l == mn2_ale_today l + mn2_epi_today l
+            /\ mn2_total_today l == 1 # 2 /\ mn2_ale_today l == 5 # 8 /\ mn2_epi_today l == 1 # 4
+            /\ mn_total (mn_union l) == 1 # 2 /\ mn_ale (mn_union l) == 1 # 4 /\ mn_epi (mn_union l) == 1 # 4.
+Proof.
+  exists l80.
+  split; [unfold Qeq; vm_compute; discriminate|].
+  split; [vm_compute; reflexivity|]. split; [vm_compute; reflexivity|]. split; [vm_compute; reflexivity|].
+  split; [vm_compute; reflexivity|]. split; vm_compute; reflexivity.
+Qed.
+
+(* when loc and scale of every member carry the same mask the pinned tree computes the repaired statistics *)
+Definition masks_agree (l : list (Q * (option Q * option Q))) : Prop :=
+  forall w a b, In (w, (a, b)) l -> (a = None <-> b = None).
+
+Lemma wsum_locs_agree (f : Q -> Q) l : masks_agree l -> wsum f (mn_locs l) = wsum (fun a => f (fst a)) (mn_union l).
+Proof.
+  unfold mn_locs, mn_union. induction l as [|[w [[a|] [b|]]] t IH]; intros H; cbn [map wsum fst snd both];
+    try (rewrite IH by (intros w' a' b' Hin; apply (H w' a' b'); right; exact Hin); reflexivity).
+  - reflexivity.
+  - exfalso. destruct (H w (Some a) None (or_introl eq_refl)) as [_ H1]. specialize (H1 eq_refl). discriminate.
+Qed.
+
+Lemma wsum_scales_agree (f : Q -> Q) l : masks_agree l -> wsum f (mn_scales l) = wsum (fun a => f (snd a)) (mn_union l).
+Proof.
+  unfold mn_scales, mn_union. induction l as [|[w [[a|] [b|]]] t IH]; intros H; cbn [map wsum fst snd both];
+    try (rewrite IH by (intros w' a' b' Hin; apply (H w' a' b'); right; exact Hin); reflexivity).
+  - reflexivity.
+  - exfalso. destruct (H w None (Some b) (or_introl eq_refl)) as [H1 _]. specialize (H1 eq_refl). discriminate.
+Qed.
+
+Lemma partial_mask_agree l : masks_agree l -> ~ wtot (mn_union l) == 0 ->
+  mn2_loc_today l == mn_loc (mn_union l) /\ mn2_ale_today l == mn_ale (mn_union l)
+  /\ mn2_epi_today l == mn_epi (mn_union l) /\ mn2_total_today l == mn_total (mn_union l).
+Proof.
+  intros H HW.
+  assert (forall f, wavg f (mn_locs l) = wavg (fun a => f (fst a)) (mn_union l)) as EL.
+  { intros f. unfold wavg, wtot. rewrite !(wsum_locs_agree _ l H). reflexivity. }
+  assert (forall f, wavg f (mn_scales l) = wavg (fun a => f (snd a)) (mn_union l)) as ES.
+  { intros f. unfold wavg, wtot. rewrite !(wsum_scales_agree _ l H). reflexivity. }
+  assert (mn2_loc_today l == mn_loc (mn_union l)) as Em by (unfold mn2_loc_today, mean, mn_loc; rewrite EL; reflexivity).
+  split; [exact Em|]. split; [unfold mn2_ale_today, mn_ale; rewrite ES; reflexivity|]. split.
+  - unfold mn2_epi_today, mn_epi. rewrite EL. apply wavg_ext. intros a _. rewrite Em. reflexivity.
+  - rewrite (mn_variance_split _ HW). unfold mn2_total_today.
+    transitivity (wavg (fun a => snd a * snd a + (fst a - mn_loc (mn_union l)) * (fst a - mn_loc (mn_union l))) (mn_union l)).
+    + apply wavg_ext. intros a _. rewrite Em. reflexivity.
+    + unfold mn_ale, mn_epi. rewrite <- wavg_add by exact HW. reflexivity.
+Qed.
+
+(* F81: two members with the integer scale 3 100 000 000: the int64 square wraps to a negative number, the
+   aleatoric variance of the pinned tree is negative (its square root NaN) where the true one is 9.61e18 *)
+Lemma int64_scale_refuted :
+  exists l, mn_ale_int64 l < 0 /\ mn_ale l == 9610000000000000000 # 1
+            /\ (forall w a, In (w, Some a) l -> snd a == inject_Z (Qnum (snd a))).
+Proof.
+  exists [(1, Some (0, inject_Z 3100000000)); (1, Some (1, inject_Z 3100000000))].
+  split; [vm_compute; reflexivity|]. split; [vm_compute; reflexivity|].
+  intros w a [E|[E|[]]]; injection E as _ <-; vm_compute; reflexivity.
+Qed.
+
+(* below 2^31.5 nothing wraps *)
+Lemma wrap64_small z : (- 2 ^ 63 <= z < 2 ^ 63)%Z -> wrap64 z = z.
+Proof. intros H. unfold wrap64. rewrite Z.mod_small by lia. lia. Qed.
